@@ -4,12 +4,14 @@
     Model: Changelog/Model.v ([parse_changelog], [format_changelog], [apply_ops] -- the
     functions Changelog/Check.v [agree] runs); domains of edited values: Changelog/Spec.v and
     Changelog/EditSpec.v [op_dom] (what [holds] uses); proofs: Changelog/ParseProofs.v,
-    NormalBase.v, NormalHeader.v, NormalProofs.v, BuiltProofs.v.  The thirteen "junk" classifiers (emacs / vim mode lines, cvs
+    NormalBase.v, NormalHeader.v, NormalProofs.v, BuiltProofs.v, EditBase.v, EditReplay.v,
+    EditForm.v, EditParsed.v.  The thirteen "junk" classifiers (emacs / vim mode lines, cvs
     keywords, comments, old_format_re1..8) are the record [J]: every theorem holds for
     EVERY instance of them. *)
 From Coq Require Import String.
 From Verif Require Import Lib.Base Lib.Dec Lib.PyStr Changelog.Model Changelog.Spec Changelog.EditSpec
-  Changelog.ParseProofs Changelog.NormalProofs Changelog.BuiltProofs.
+  Changelog.ParseProofs Changelog.NormalProofs Changelog.BuiltProofs
+  Changelog.EditReplay Changelog.EditParsed.
 
 (** 1. lenient_total.  For every input (a str, any list of lines, a file), every
        allow_empty_author, every max_blocks, the lenient constructor returns.  Rests on
@@ -75,39 +77,37 @@ Theorem C15_format_normal_form_built :
               /\ (cl_blocks c <> [] -> p_warn st' = []).
 Proof. exact normal_form_built. Qed.
 
-(** format_normal_form as DESIGN section 4 (C15) states it -- FULL STATEMENT, of which
-    theorems 3 and 4 are the proved part:
+(** 5. format_normal_form, in full: parsed, then edited.  For EVERY text [s], every
+       allow_empty_author, every instance of the junk classifiers and EVERY sequence [ops] of
+       editing calls with values in their documented domains applied to the parsed object
+       (a new block in front of parsed blocks, changes added to or attributes assigned on a
+       parsed block -- including a block that was parsed without trailer or from a malformed
+       heading): if the edited object [c] can be formatted to [t], then parsing [t] succeeds
+       and gives the initial lines of [c] and, block for block, the blocks of [c] -- equal in
+       package, version, distributions, urgency, urgency comment, extra pairs, changes,
+       author, date, trailing lines and trailer separator ([block_norm] changes only the
+       private flag "parsed without trailer", theorem 6) -- and formats to the identical text.
+       With [ops = []] this contains theorem 3 (up to that flag). *)
+Theorem C15_format_normal_form :
+  forall J allow s st ops c t,
+  parse_changelog J false allow None (InStr s) = Ok st ->
+  forallb op_dom ops = true -> apply_ops (cl_of st) ops = Ok c ->
+  format_changelog false c = Ok t ->
+  exists st', parse_changelog J false allow None (InStr t) = Ok st'
+              /\ cl_of st' = mkCl (cl_initial c) (map block_norm (cl_blocks c))
+              /\ format_changelog false (cl_of st') = Ok t.
+Proof. exact format_normal_form. Qed.
 
-      forall J allow s st ops c t,
-        parse_changelog J false allow None (InStr s) = Ok st   (or st = the empty object) ->
-        forallb op_dom ops = true -> apply_ops (cl_of st) ops = Ok c ->
-        format_changelog false c = Ok t ->
-        exists st', parse_changelog J false allow None (InStr t) = Ok st'
-                    /\ the seven attributes of cl_blocks (cl_of st') and of cl_blocks c agree
-                    /\ format_changelog false (cl_of st') = Ok t.
-
-    Proved: ops = [] on any parsed object (theorem 3), and any in-domain ops on the empty
-    object (theorem 4).  MISSING: in-domain editing calls applied to a PARSED object (a
-    new block put in front of parsed blocks, or the first parsed block modified); this needs
-    the per-block (rather than whole-run) form of the replay invariant of NormalProofs.v.
-    It is exercised only by the correspondence check (CEdit cases with a parsed start). *)
-Theorem C15_format_normal_form_partial :
-  (forall J allow s st t,
-     parse_changelog J false allow None (InStr s) = Ok st ->
-     format_changelog false (cl_of st) = Ok t ->
-     exists st', parse_changelog J false allow None (InStr t) = Ok st'
-                 /\ cl_of st' = cl_of st /\ format_changelog false (cl_of st') = Ok t)
-  /\
-  (forall J allow ops c t,
-     forallb op_dom ops = true -> apply_ops empty_changelog ops = Ok c ->
-     format_changelog false c = Ok t ->
-     exists st', parse_changelog J false allow None (InStr t) = Ok st'
-                 /\ cl_of st' = c /\ format_changelog false (cl_of st') = Ok t).
-Proof.
-  split; [exact format_normal_form_parsed|].
-  intros J allow ops c t H1 H2 H3. destruct (normal_form_built J allow ops c t H1 H2 H3) as (st' & A & B & C & _).
-  exists st'. auto.
-Qed.
+(** 6. what [block_norm] keeps: everything the property names, and more *)
+Theorem C15_block_norm_attributes :
+  forall b,
+  b_package (block_norm b) = b_package b /\ b_version (block_norm b) = b_version b
+  /\ b_dists (block_norm b) = b_dists b /\ b_urgency (block_norm b) = b_urgency b
+  /\ b_comment (block_norm b) = b_comment b /\ b_changes (block_norm b) = b_changes b
+  /\ b_author (block_norm b) = b_author b /\ b_date (block_norm b) = b_date b
+  /\ b_trailing (block_norm b) = b_trailing b /\ b_pairs (block_norm b) = b_pairs b
+  /\ b_sep (block_norm b) = b_sep b.
+Proof. exact block_norm_attrs. Qed.
 
 (** Non-vacuity: with no junk classifier firing, a text whose trailer has a single
     space before the date parses leniently to one block with one warning and is refused
@@ -172,9 +172,41 @@ Example C15_built_nonvacuous :
      end.
 Proof. vm_compute. repeat split. Qed.
 
+(** a parsed object with a junk line, a normalised heading and NO trailer, then edited: a
+    change added, author and date assigned, a new block put in front.  str() now writes the
+    trailer (fix 0b48ef1), and the text parses back to the same blocks *)
+Example C15_edit_parsed_nonvacuous :
+  let s := dec "junk\00000ap (1;2) a  b; x,urgency=low (c) , K=1, k=2\00000a  * x\00000a" in
+  let ops := [AddChange (dec "  * y"); SetAttr AAuthor (dec "A B <a@b.c>");
+              SetAttr ADate (dec "Mon, 01 Jan 2001 00:00:00 +0000");
+              NewBlock (Some (dec "q")) (Some (dec "2.0")) (Some (dec "unstable")) None None
+                       (Some [dec "  * new"]) (Some (dec "C <c@d>")) (Some (dec "1 Jan 2002 1:00:00 -0100")) None] in
+  forallb op_dom ops = true
+  /\ match parse_changelog no_junk false false None (InStr s) with
+     | Ok st =>
+         match apply_ops (cl_of st) ops with
+         | Ok c =>
+             match format_changelog false c with
+             | Ok t =>
+                 match parse_changelog no_junk false false None (InStr t) with
+                 | Ok st' => cl_of st' = mkCl (cl_initial c) (map block_norm (cl_blocks c))
+                             /\ List.length (cl_blocks c) = 2%nat
+                             /\ map b_no_trailer (cl_blocks c) = [false; true]
+                             /\ map b_no_trailer (cl_blocks (cl_of st')) = [false; false]
+                 | Err _ => False
+                 end
+             | Err _ => False
+             end
+         | Err _ => False
+         end
+     | Err _ => False
+     end.
+Proof. vm_compute. repeat split. Qed.
+
 Print Assumptions C15_lenient_total.
 Print Assumptions C15_strict_iff_warning.
 Print Assumptions C15_strict_raises_iff_lenient_warns.
 Print Assumptions C15_format_normal_form_parsed.
 Print Assumptions C15_format_normal_form_built.
-Print Assumptions C15_format_normal_form_partial.
+Print Assumptions C15_format_normal_form.
+Print Assumptions C15_block_norm_attributes.
